@@ -127,6 +127,16 @@ def _const(e: ast.expr, v) -> bool:
     return isinstance(e, ast.Constant) and type(e.value) is type(v) and e.value == v
 
 
+def norm_name(e: ast.AST) -> str:
+    """Dotted name of a Name / Attribute chain ('' for anything else)."""
+    if isinstance(e, ast.Name):
+        return e.id
+    if isinstance(e, ast.Attribute):
+        b_ = norm_name(e.value)
+        return f"{b_}.{e.attr}" if b_ else ""
+    return ""
+
+
 def simplify_test(e: ast.expr) -> ast.expr:
     """Canonical spelling of an expression used for its truth value."""
     if isinstance(e, ast.UnaryOp) and isinstance(e.op, ast.Not):
@@ -618,6 +628,19 @@ class BlockCanon:
                     st.test = simplify_test(_and(st.test, inner.test))  # type: ignore[attr-defined]
                     st.body = inner.body  # type: ignore[attr-defined]
                     continue
+            # ---- for/else: `for x in it: if c: break` + `else: E (terminating)` followed by REST (terminating)
+            #      ->  `for x in it: if c: REST` ; E      (REST only runs after the break, with x bound to that element)
+            if enabled("C7") and isinstance(st, ast.For) and st.orelse and terminates(st.orelse) and len(st.body) == 1 and isinstance(st.body[0], ast.If) \
+                    and not st.body[0].orelse and _only(st.body[0].body, lambda s_: isinstance(s_, ast.Break)):
+                rest_ = stmts[i + 1:]
+                if rest_ and terminates(rest_) and not any(isinstance(x, (ast.Break, ast.Continue)) for r_ in rest_ for x in ast.walk(r_)):
+                    self.changed = True
+                    inner_if = st.body[0]
+                    inner_if.body = list(rest_)
+                    else_ = list(st.orelse)
+                    st.orelse = []
+                    stmts[i:] = [st] + else_
+                    continue
             # ---- C10 EAFP -> LBYL on a plain mapping lookup
             if enabled("C10"):
                 r10 = self._lbyl(st, stmts[i + 1] if not last else None, stmts[i + 2:])
@@ -668,6 +691,48 @@ class BlockCanon:
                     self.changed = True
                     stmts[i : i + 1] = [_One().visit(b_) for b_ in st.body]
                     continue
+                # for T in (e1, e2[, e3, e4]): BODY  ->  BODY[T := e1]; BODY[T := e2] ...   (a short literal table of names /
+                # constants, or of tuples of them for a tuple target; no break/continue; the targets are not rebound or used later)
+                if isinstance(st, ast.For) and not st.orelse and isinstance(st.iter, (ast.Tuple, ast.List)) and 2 <= len(st.iter.elts) <= 4 \
+                        and not any(isinstance(x, (ast.Break, ast.Continue) + FuncNode + (ast.Lambda,)) for b_ in st.body for x in ast.walk(b_)):
+                    tgts_ = [st.target] if isinstance(st.target, ast.Name) else (list(st.target.elts) if isinstance(st.target, ast.Tuple) and all(isinstance(t_, ast.Name) for t_ in st.target.elts) else None)
+                    rows_ = None
+                    if tgts_ is not None:
+                        rows_ = []
+                        for el_ in st.iter.elts:
+                            vals_ = [el_] if isinstance(st.target, ast.Name) else (list(el_.elts) if isinstance(el_, (ast.Tuple, ast.List)) and len(el_.elts) == len(tgts_) else None)
+                            if vals_ is None or not all(isinstance(v_, (ast.Name, ast.Constant)) for v_ in vals_):
+                                rows_ = None
+                                break
+                            rows_.append(vals_)
+                    tnames_ = {t_.id for t_ in (tgts_ or [])}
+                    if rows_ and not any(isinstance(x, ast.Name) and x.id in tnames_ and isinstance(x.ctx, (ast.Store, ast.Del)) for b_ in st.body for x in ast.walk(b_)) \
+                            and not any(isinstance(x, ast.Name) and x.id in tnames_ for r_ in stmts[i + 1:] for x in ast.walk(r_)) \
+                            and not any(isinstance(v_, ast.Name) and any(isinstance(x, ast.Name) and x.id == v_.id and isinstance(x.ctx, (ast.Store, ast.Del)) for b_ in st.body for x in ast.walk(b_))
+                                        for row_ in rows_ for v_ in row_):
+                        out_: List[ast.stmt] = []
+                        for row_ in rows_:
+                            mp_ = {t_.id: v_ for t_, v_ in zip(tgts_, row_)}
+
+                            class _Row(ast.NodeTransformer):
+                                def visit_Name(self, n: ast.Name):
+                                    if n.id in mp_ and isinstance(n.ctx, ast.Load):
+                                        return ast.copy_location(copy.deepcopy(mp_[n.id]), n)
+                                    return n
+
+                            out_ += [_Row().visit(copy.deepcopy(b_)) for b_ in st.body]
+                        self.changed = True
+                        stmts[i : i + 1] = out_
+                        continue
+                # deque(<genexp>, maxlen=0) / for _ in <genexp>: pass  ->  the loop that runs the generator for its effects
+                if isinstance(st, ast.Expr) and isinstance(st.value, ast.Call) and (norm_name(st.value.func) in ("deque", "collections.deque")) and len(st.value.args) == 1 \
+                        and isinstance(st.value.args[0], ast.GeneratorExp) and len(st.value.keywords) == 1 and st.value.keywords[0].arg == "maxlen" and _const(st.value.keywords[0].value, 0):
+                    g_ = st.value.args[0]
+                    lp_ = self._nest(g_.generators, [_loc(ast.Expr(value=g_.elt), st)], st)  # type: ignore[list-item]
+                    if lp_ is not None:
+                        self.changed = True
+                        stmts[i] = lp_
+                        continue
                 # for i, T in enumerate(<genexp>, k): BODY  ->  i = k - 1; for T in <genexp>: i += 1; BODY   (then the genexp rule below)
                 if isinstance(st, ast.For) and not st.orelse and isinstance(st.iter, ast.Call) and isinstance(st.iter.func, ast.Name) and st.iter.func.id == "enumerate" \
                         and st.iter.args and isinstance(st.iter.args[0], ast.GeneratorExp) and isinstance(st.target, ast.Tuple) and len(st.target.elts) == 2 \
@@ -1916,6 +1981,8 @@ class HelperInliner:
         """(pre-statements, renamed copy of the callee body) or None."""
         if _has_yield(d) or isinstance(d, ast.AsyncFunctionDef):
             return None
+        if d is fn or any(x is fn for x in ast.walk(d)):
+            return None  # a helper is not inlined into itself (a recursive helper stays a function)
         if any(isinstance(n, ast.Call) and isinstance(n.func, ast.Name) and n.func.id == d.name for n in ast.walk(d)):
             return None  # recursive
         if any(isinstance(n, ast.Attribute) and n.attr == d.name and isinstance(getattr(n, "ctx", None), ast.Load) and n is not call.func for n in ast.walk(d)):
@@ -2012,7 +2079,7 @@ class HelperInliner:
     def _gen_as_genexp(self, fn, call, d, recv, bound) -> Optional[ast.expr]:
         """A new private *generator* helper of the form `for T in IT: [if C:] yield E` (nothing else) called with pure
         arguments is the generator expression (E for T in IT if C)."""
-        if isinstance(d, ast.AsyncFunctionDef):
+        if isinstance(d, ast.AsyncFunctionDef) or d is fn or any(x is fn for x in ast.walk(d)):
             return None
         body = [s_ for s_ in d.body if not _is_docstring(s_)]
         if len(body) != 1 or not isinstance(body[0], ast.For) or body[0].orelse or not isinstance(body[0].target, (ast.Name, ast.Tuple)):
@@ -2329,6 +2396,22 @@ class LiveRangeSplitter:
 
 # --------------------------------------------------------------------------- driver
 def _canon_function(fn, may_write, single_use: bool = True) -> bool:
+    """Fault-tolerant wrapper: a function whose canonicalisation fails (an internal error of a rewrite step) keeps the
+    form it had before this call - the rules then see an un-normalised body (undecided clauses at worst), the other
+    functions are not affected."""
+    backup = copy.deepcopy(fn.body)
+    try:
+        return _canon_function_inner(fn, may_write, single_use)
+    except (RecursionError, AttributeError, TypeError, KeyError, IndexError, ValueError) as e:  # noqa: BLE001
+        fn.body = backup
+        CANON_FAILURES.append(f"{getattr(fn, 'name', '?')}: {type(e).__name__}: {e}")
+        return False
+
+
+CANON_FAILURES: List[str] = []
+
+
+def _canon_function_inner(fn, may_write, single_use: bool = True) -> bool:
     changed = False
     for _ in range(6):
         round_changed = False
@@ -2534,7 +2617,13 @@ def canonicalise(modules: Dict[str, ast.Module], known_funcs: Optional[Set[str]]
                 for fn, cls, q in lst:
                     before = hi.changed
                     hi.changed = False
-                    hi.inline_into(fn, cls)
+                    backup_ = copy.deepcopy(fn.body)
+                    try:
+                        hi.inline_into(fn, cls)
+                    except (RecursionError, AttributeError, TypeError, KeyError, IndexError, ValueError) as e_:  # noqa: BLE001
+                        fn.body = backup_
+                        hi.changed = False
+                        CANON_FAILURES.append(f"{fn.name}: helper inlining: {type(e_).__name__}: {e_}")
                     if hi.changed:
                         stats["inlined_helpers"] += 1
                         _canon_function(fn, may_write, single_use=False)
@@ -2575,4 +2664,7 @@ def canonicalise(modules: Dict[str, ast.Module], known_funcs: Optional[Set[str]]
             _canon_function(fn, may_write, single_use=True)
     for tree in modules.values():
         ast.fix_missing_locations(tree)
+    if CANON_FAILURES:
+        stats["failed_functions"] = len(CANON_FAILURES)
+        del CANON_FAILURES[:]
     return stats
